@@ -88,10 +88,15 @@ func Pick(q, t int) int {
 // Excluded reports whether the known-finding signature sig is excluded by construction from
 // the generators of this run (VERIF_EXCLUDE is set by the driver from known_findings.json,
 // entries with status "known" only).
+//
+// VERIF_EXCLUDE_EXTRA (comma separated, passed through by the driver unchanged) adds signatures by
+// hand while a finding is being investigated and is not yet listed in known_findings.json.
 func Excluded(sig string) bool {
-	for _, s := range strings.Split(os.Getenv("VERIF_EXCLUDE"), ",") {
-		if s == sig && s != "" {
-			return true
+	for _, env := range []string{"VERIF_EXCLUDE", "VERIF_EXCLUDE_EXTRA"} {
+		for _, s := range strings.Split(os.Getenv(env), ",") {
+			if s == sig && s != "" {
+				return true
+			}
 		}
 	}
 	return false
